@@ -116,8 +116,9 @@ Evaluate ==
   /\ UNCHANGED <<iid, k, pol, gq, bq, hist, opt>>
 
 \* a changed rule starts iteration k + 1, unless the loop `for i in range(CAP)` is exhausted ("cap").
-\* The machine is deterministic, so a rule that was already visited means the loop repeats for ever:
-\* the behaviour is cut there ("cycle") - the code then runs into its cap and reports no convergence.
+\* What the code does next is a deterministic function of the current rule, so a behaviour that comes
+\* back to a rule it has already visited repeats for ever: it is cut there ("cycle") - the code then runs
+\* into its cap and reports no convergence.
 Seen(new) == \E i \in 1..Len(hist) : hist[i].pol = new
 NextIteration(new, by) ==
   /\ pol' = new
